@@ -179,6 +179,8 @@ def main():
     hook = StatsHook(run, hvsrpy)
     for fenc, aenc in (("N", "N"), ("L", "L"), ("N", "L"), ("L", "N")):
         rp.replay(hvsrobj.Instance(6, fenc, aenc), state_hook=hook, step_hook=hook.light, trans_filter=sess_filter)
+    # nearly identical curves (amplitudes 8 + level * 2^-17, every value exact in binary): the scatter must survive the estimator
+    rp.replay(hvsrobj.Instance(6, "N", "N", ascale=2.0 ** -17, aoff=8.0), state_hook=hook, trans_filter=lambda a, t: a["op"] != "ManualSession")
     rp.validate_pending()
     run.notes["replay"] = rp.stats
     # 3. the interactive manual rejection from EVERY initial assignment (chains of boxes), driven through the real
